@@ -261,4 +261,87 @@ theorem to_preserves (c c' : ACube) (u new : UnitM) (hu : c.unit = some u) (h : 
     refine ⟨rfl, by simp [hx], by grind⟩
   · cases h
 
+/-! ## powers and `value / cube` -/
+
+theorem rat_mul_pow (a b : Rat) (n : Nat) : (a * b) ^ n = a ^ n * b ^ n := by
+  induction n with
+  | zero => simp
+  | succ n ih => rw [Rat.pow_succ, Rat.pow_succ, Rat.pow_succ, ih]; grind
+
+theorem rat_mul_zpow (a b : Rat) (k : Int) : (a * b) ^ k = a ^ k * b ^ k := by
+  cases k with
+  | ofNat n => exact rat_mul_pow a b n
+  | negSucc n =>
+    rw [show Int.negSucc n = -((n + 1 : Nat) : Int) from rfl, Rat.zpow_neg, Rat.zpow_neg, Rat.zpow_neg,
+      Rat.zpow_natCast, Rat.zpow_natCast, Rat.zpow_natCast, rat_mul_pow, Rat.inv_mul_rev, Rat.mul_comm]
+
+theorem rat_one_zpow (k : Int) : (1 : Rat) ^ k = 1 := by
+  have h1 : ∀ n : Nat, (1 : Rat) ^ n = 1 := by
+    intro n; induction n with
+    | zero => simp
+    | succ n ih => rw [Rat.pow_succ, ih]; simp
+  cases k with
+  | ofNat n => exact h1 n
+  | negSucc n =>
+    rw [show Int.negSucc n = -((n + 1 : Nat) : Int) from rfl, Rat.zpow_neg, Rat.zpow_natCast, h1]
+    exact Rat.inv_eq_of_mul_eq_one (Rat.mul_one 1)
+
+/-- **Powers**: the physical values of `cube ** k` are the `k`-th powers of the cube's physical values
+(the unit's scale is raised along with the data), for every integer `k`; where `k < 0` the real code
+divides by the data, so the statement is about cubes without zeros there. -/
+theorem pow_phys (c : ACube) (k : Int) (_hz : k < 0 → ∀ d ∈ c.data, d ≠ 0) :
+    (c.pow k).phys = c.phys.map (· ^ k) := by
+  simp only [ACube.phys, ACube.pow, cubeUnit, List.map_map]
+  apply List.map_congr_left
+  intro d _
+  cases hu : c.unit with
+  | none => simp [UnitM.one]
+  | some u => simp [UnitM.pow, rat_mul_zpow]
+
+/-- a power carries coordinates, mask and meta over and keeps the number of elements -/
+theorem pow_carried (c : ACube) (k : Int) : (c.pow k).rest = c.rest ∧ (c.pow k).data.length = c.data.length := by
+  simp [ACube.pow]
+
+/-- **`number / cube`**: the physical values are the number divided by the cube's physical values, the
+unit is the cube's unit to the power −1. -/
+theorem rdiv_num_phys (c c' : ACube) (x : Rat) (h : c.rdiv (.num x) = .ok c') (_hz : ∀ d ∈ c.data, d ≠ 0) :
+    c'.phys = c.phys.map (fun p => x / p) ∧ c'.unit = c.unit.map (·.pow (-1)) ∧ c'.rest = c.rest := by
+  simp only [ACube.rdiv, ACube.mul, Except.ok.injEq] at h
+  subst h
+  refine ⟨?_, rfl, rfl⟩
+  simp only [ACube.phys, ACube.pow, cubeUnit, List.map_map]
+  apply List.map_congr_left
+  intro d _
+  cases hu : c.unit with
+  | none =>
+    simp only [Function.comp, Option.map_none, Option.getD_none, UnitM.one, Rat.mul_one, Rat.div_def]
+    rw [show (-1 : Int) = -((1 : Nat) : Int) from rfl, Rat.zpow_neg, Rat.zpow_natCast, Rat.pow_one, Rat.mul_comm]
+  | some u =>
+    simp only [Function.comp, Option.map_some, Option.getD_some, UnitM.pow, Rat.div_def]
+    rw [show (-1 : Int) = -((1 : Nat) : Int) from rfl, Rat.zpow_neg, Rat.zpow_neg, Rat.zpow_natCast, Rat.zpow_natCast,
+      Rat.pow_one, Rat.pow_one, Rat.inv_mul_rev]
+    grind
+
+/-- **`Quantity / cube`**: element by element the operand's physical value divided by the cube's. -/
+theorem rdiv_quantity_phys (c c' : ACube) (v : List Rat) (uq : UnitM) (h : c.rdiv (.quantity v uq) = .ok c')
+    (_hz : ∀ d ∈ c.data, d ≠ 0) :
+    c'.phys = zipOp (fun p q => q / p) c.phys ((bcast v c.data.length).map (· * uq.scale)) ∧ c'.rest = c.rest := by
+  simp only [ACube.rdiv, ACube.mul, Except.ok.injEq] at h
+  subst h
+  refine ⟨?_, rfl⟩
+  simp only [ACube.phys, ACube.pow, cubeUnit, zipOp, List.length_map, Option.getD_some, UnitM.mul,
+    List.map_zipWith, List.zipWith_map_left, List.zipWith_map_right]
+  congr 1
+  funext d q
+  have hinv : ∀ x : Rat, x ^ (-1 : Int) = x⁻¹ := by
+    intro x
+    rw [show (-1 : Int) = -((1 : Nat) : Int) from rfl, Rat.zpow_neg, Rat.zpow_natCast, Rat.pow_one]
+  cases hu : c.unit with
+  | none =>
+    simp only [Option.map_none, Option.getD_none, UnitM.one, Rat.mul_one, Rat.one_mul, Rat.div_def, hinv]
+    grind
+  | some u =>
+    simp only [Option.map_some, Option.getD_some, UnitM.pow, Rat.div_def, hinv, Rat.inv_mul_rev]
+    grind
+
 end Ndcube.C10
